@@ -229,8 +229,7 @@ def run(ctx):
         # row citation
         if fi is w2j and any(a is loop for a in ancestors(c)):
             r3.check(_depends_on(w2j.node, c.args[0], {"row_number"}), key, "row-loop warning is built from the row number", fi.loc(c))
-        if fi.qualname == "validate_choice_list":
-            r3.check("__row" in norm(c), key, "choices warning cites the choice's row", fi.loc(c))
+        # (the choices validator's row citation is decided by evaluation: choice_list_obligations, C20.R2)
     ctx.count("warning_sites", len(sites))
     # the unlabeled group / repeat warning: its guard is evaluated on the row shapes the documentation lists
     from ..astutil import guards_of as _guards_of
